@@ -3,6 +3,7 @@ package c01
 import (
 	"fmt"
 	"io"
+	"strings"
 
 	hserver "github.com/cloudwego/hertz/pkg/app/server"
 	"github.com/cloudwego/hertz/pkg/common/config"
@@ -248,6 +249,100 @@ func TestC01Streams(t *testing.T) {
 		}
 		if nt && rec.WantSample() {
 			rec.Sample(sample(s, stream, readBuf))
+		}
+	})
+}
+
+// ---------------------------------------------------------------------------
+// multipart/form-data bodies (pre-parsed by the server with mime/multipart, which stops at the closing
+// boundary) whose declared length also covers an epilogue: the epilogue belongs to the body, the next
+// request starts behind it. The handler gets the form re-marshalled, so only the framing is compared:
+// one invocation per request, in order, with the right method and target, and one response each.
+func TestC01Multipart(t *testing.T) {
+	rec := ev.New("multipart-epilogue")
+	host := wire.KV{K: "Host", V: "example.com"}
+	rapid.Check(t, func(t *rapid.T) {
+		stream := rapid.Bool().Draw(t, "streaming")
+		readBuf := rapid.SampledFrom([]int{4096, 4096, 1, 8192}).Draw(t, "readBuf")
+		k := rapid.IntRange(1, 4).Draw(t, "nReqs")
+		s := &gen.Stream{}
+		multi := map[int]bool{}
+		maxEpi := 0
+		for i := 0; i < k; i++ {
+			target := fmt.Sprintf("/r%d", i)
+			if rapid.IntRange(0, 2).Draw(t, "plain") == 0 {
+				s.Reqs = append(s.Reqs, &wire.Req{Method: "GET", Target: target, Proto: "HTTP/1.1", Lines: []wire.KV{host}})
+				s.Infos = append(s.Infos, &gen.ReqInfo{FoldedNames: map[string]bool{}})
+				continue
+			}
+			val := string(gen.Body(rapid.SampledFrom([]int{0, 1, 100, 5000}).Draw(t, "fieldLen"), i, 3, 0))
+			mp := "--b\r\nContent-Disposition: form-data; name=\"a\"\r\n\r\n" + val + "\r\n--b--" + rapid.SampledFrom([]string{"\r\n", "", "\r\n\r\n"}).Draw(t, "afterClose")
+			n := rapid.SampledFrom([]int{0, 0, 1, 2, 8, 100, 1000, 4000, 4096, 4097, 5000, 9000, 20000}).Draw(t, "epilogueLen")
+			epi := ""
+			switch rapid.IntRange(0, 2).Draw(t, "epilogueKind") {
+			case 0:
+				epi = strings.Repeat("e", n)
+			case 1:
+				sm := "GET /smuggled HTTP/1.1\r\nHost: example.com\r\n\r\n"
+				for len(epi) < n {
+					epi += sm
+				}
+			default:
+				epi = string(gen.Body(n, i, 9, 2))
+			}
+			if epi != "" && !strings.HasSuffix(mp, "\r\n") {
+				mp += "\r\n" // the close delimiter ends its line before an epilogue may follow
+			}
+			if len(epi) > maxEpi {
+				maxEpi = len(epi)
+			}
+			body := []byte(mp + epi)
+			s.Reqs = append(s.Reqs, &wire.Req{Method: "POST", Target: target, Proto: "HTTP/1.1", Framing: wire.FrCL, Body: body, BodyLen: len(body),
+				Lines: []wire.KV{host, {K: "Content-Type", V: "multipart/form-data; boundary=b"}, {K: "Content-Length", V: fmt.Sprint(len(body))}}})
+			s.Infos = append(s.Infos, &gen.ReqInfo{FoldedNames: map[string]bool{}})
+			multi[i] = true
+		}
+		gen.SetClose(s.Reqs[len(s.Reqs)-1])
+		s.Encode()
+		s.Cuts = gen.Cuts(t, len(s.Bytes), s.AllMarks())
+		cls := []string{fmt.Sprintf("reqs-%d", k), map[bool]string{true: "cfg-streaming", false: "cfg-buffered"}[stream]}
+		switch {
+		case maxEpi == 0:
+			cls = append(cls, "epilogue-none")
+		case maxEpi < 4096:
+			cls = append(cls, "epilogue-lt4k")
+		default:
+			cls = append(cls, "epilogue-ge4k")
+		}
+		rec.Case(len(multi) > 0 && maxEpi > 0 && k >= 2, ev.Hash(s.Bytes, []byte(fmt.Sprint(stream, readBuf, s.Cuts))), cls...)
+		obs, res, _ := server(stream, readBuf).Run(sconn.Split(s.Bytes, s.Cuts), sconn.EOF)
+		fail := func(f string, a ...interface{}) {
+			t.Fatalf("streaming=%v readBuf=%d cuts=%v: %s\nobserved:\n%s\nstream: %s", stream, readBuf, trimInts(s.Cuts), fmt.Sprintf(f, a...), srv.Describe(obs), srv.Short(s.Bytes))
+		}
+		if res.Panic != nil {
+			fail("panic: %v", res.Panic)
+		}
+		if len(obs) != len(s.Reqs) {
+			fail("%d handler invocations for %d requests", len(obs), len(s.Reqs))
+		}
+		var methods []string
+		for i, r := range s.Reqs {
+			if obs[i].Method != r.Method || obs[i].URI != r.Target {
+				fail("invocation #%d is %s %s, want %s %s (bytes of a multipart epilogue were taken for a request?)", i, srv.Short([]byte(obs[i].Method)), obs[i].URI, r.Method, r.Target)
+			}
+			if !multi[i] && len(obs[i].Body) != 0 {
+				fail("request #%d has no body but the handler saw %d bytes", i, len(obs[i].Body))
+			}
+			methods = append(methods, r.Method)
+		}
+		rs, err := srv.Resps(res.Output, methods)
+		if err != nil || len(rs) != len(s.Reqs) {
+			fail("want %d well-formed responses, got %d (%v)", len(s.Reqs), len(rs), err)
+		}
+		for i, r := range rs {
+			if r.Status != 200 || srv.EchoIndex(r) != i {
+				fail("response #%d has status %d, echo index %d", i, r.Status, srv.EchoIndex(r))
+			}
 		}
 	})
 }
